@@ -74,6 +74,12 @@ func NewConn(key, addr string, periodFlush time.Duration, pickle bool, connBufSi
 	if err != nil {
 		return nil, err
 	}
+	// a line is kept safe from the moment it is written into the write buffer. it can sit there for up to
+	// periodFlush before it even reaches the socket, so it must be kept at least that long
+	keepDuration := keepsafe_keep_duration
+	if periodFlush > keepDuration {
+		keepDuration = periodFlush
+	}
 	connObj := &Conn{
 		conn:     conn,
 		buffered: NewWriter(conn, ioBufSize, key),
@@ -89,7 +95,7 @@ func NewConn(key, addr string, periodFlush time.Duration, pickle bool, connBufSi
 		flush:             make(chan bool),
 		flushErr:          make(chan error),
 		periodFlush:       periodFlush,
-		keepSafe:          NewKeepSafe(keepsafe_initial_cap, keepsafe_keep_duration),
+		keepSafe:          NewKeepSafe(keepsafe_initial_cap, keepDuration),
 		numErrTruncated:   stats.Counter("dest=" + key + ".unit=Err.type=truncated"),
 		numErrWrite:       stats.Counter("dest=" + key + ".unit=Err.type=write"),
 		numErrFlush:       stats.Counter("dest=" + key + ".unit=Err.type=flush"),
